@@ -233,6 +233,8 @@ def record(ntraces, length, seed, nitems):
         K, dec = drv.K, drv.dec
         evs = []
         phase = "grow"
+        queue = []           # scripted follow-up operations (runs of adjacent removals, tail pops, re-adds)
+        last_added = 1
         for i in range(length):
             n = len(s)
             if n > nitems * 0.8:
@@ -241,7 +243,31 @@ def record(ntraces, length, seed, nitems):
                 phase = "grow"
             c = rng.random()
             op = {"op": "add", "x": 0, "ops": []}
-            if phase == "grow" and c < 0.75 or phase == "churn" and c < 0.4:
+            if not queue and n >= 8 and rng.random() < 0.08:
+                # deletion patterns the dead-index table is sensitive to: a run of adjacent positions removed in
+                # descending or ascending order (anywhere, near the front, near the back), then the tail, then new items
+                run = rng.randint(2, 5)
+                where = rng.choice(["any", "front", "back", "back"])
+                hi = rng.randrange(run, n) if where == "any" else (run + rng.randint(0, 2) if where == "front" else n - 1 - rng.randint(0, 3))
+                hi = max(run - 1, min(n - 1, hi))
+                try:
+                    items = [dec(s[j]) for j in range(hi - run + 1, hi + 1)]
+                except Exception:      # a corrupted object shows up in this event's probes; keep generating
+                    items = []
+                if rng.random() < 0.6:
+                    items.reverse()
+                kind = rng.choice(["remove", "discard", "popidx"])
+                for it_ in items:
+                    queue.append({"op": "remove" if kind != "discard" else "discard", "x": it_, "ops": []})
+                for _ in range(rng.randint(0, 4)):
+                    queue.append({"op": "pop", "x": NONE, "ops": []})
+                for _ in range(rng.randint(1, 3)):
+                    queue.append({"op": "add", "x": rng.randint(1, nitems), "ops": []})
+            if queue:
+                op = queue.pop(0)
+                if op["op"] in ("remove",) and K(op["x"]) not in s:
+                    op = {"op": "discard", "x": op["x"], "ops": []}
+            elif phase == "grow" and c < 0.75 or phase == "churn" and c < 0.4:
                 op = {"op": "add", "x": rng.randint(1, nitems), "ops": []}
             elif c < 0.9 and n:
                 live = None
@@ -255,13 +281,17 @@ def record(ntraces, length, seed, nitems):
                 if kind == "pop":
                     op = {"op": "pop", "x": rng.choice([pos, pos - n, NONE if rng.random() < 0.2 else pos]), "ops": []}
                 else:
-                    op = {"op": kind, "x": dec(s[pos]) if rng.random() < 0.9 else rng.randint(1, nitems), "ops": []}
+                    try:
+                        at = dec(s[pos])
+                    except Exception:
+                        at = rng.randint(1, nitems)
+                    op = {"op": kind, "x": at if rng.random() < 0.9 else rng.randint(1, nitems), "ops": []}
             elif c < 0.97:
                 k = rng.choice(["update", "update", "difference_update", "intersection_update", "symmetric_difference_update", "discard"])
                 if k == "discard":
                     op = {"op": "discard", "x": rng.randint(1, nitems), "ops": []}
                 elif k == "intersection_update":
-                    keep = [dec(e) for e in s if rng.random() < 0.9]
+                    keep = [dec(e) for e in list(s) if rng.random() < 0.9]
                     op = {"op": k, "x": 0, "ops": [keep]}
                 elif k == "symmetric_difference_update":
                     op = {"op": k, "x": 0, "ops": [sorted(set(rng.randint(1, nitems) for _ in range(rng.randint(0, 4))))]}
@@ -269,6 +299,8 @@ def record(ntraces, length, seed, nitems):
                     op = {"op": k, "x": 0, "ops": [[rng.randint(1, nitems) for _ in range(rng.randint(0, 4))] for _ in range(rng.randint(1, 2))]}
             else:
                 op = {"op": rng.choice(["sort", "reverse", "clear"] if rng.random() < 0.2 else ["reverse", "sort"]), "x": 0, "ops": []}
+            if op["op"] == "add":
+                last_added = op["x"]
             drv.trace_mode = True
             variant = rng.choice(drv.variants(op))
             args = drv.build_args(op, variant)
@@ -279,12 +311,9 @@ def record(ntraces, length, seed, nitems):
             ev = {"op": op, "variant": variant or "", "r": got["r"], "len": n, "getitem": [], "index": [], "slices": [],
                   "hasfull": False, "full": [], "fullrev": []}
             try:
-                for _ in range(4):
-                    if n:
-                        i_ = rng.randrange(-n, n)
-                        ev["getitem"].append([i_, dec(s[i_])])
-                for _ in range(3):
-                    x_ = rng.randint(1, nitems)
+                for i_ in ([rng.randrange(-n, n) for _ in range(3)] + [-1, n - 1, n // 2] if n else []):
+                    ev["getitem"].append([i_, dec(s[i_])])
+                for x_ in [rng.randint(1, nitems), rng.randint(1, nitems), last_added] + ([dec(s[-1])] if n else []):
                     try:
                         ev["index"].append([x_, s.index(K(x_))])
                     except ValueError:
